@@ -57,7 +57,7 @@ class C10(Check):
                    'every module with an injected error, and no configured value has reached any driver',
                    'values are compared in wire form by the harness\' own conversion']
     PROBES = ('c10.good-config', 'c10.bad-config', 'c10.multi-file', 'c10.limits-overridden', 'c10.write-configured',
-              'c10.several-errors', 'c10.restart', 'c10.internal-write-probe', 'fault.start-up-write-comfail') + tuple(f'c10.err.{k}' for k in ERROR_KINDS)
+              'c10.several-errors', 'c10.restart', 'c10.two-modules-of-one-class', 'c10.internal-write-probe', 'fault.start-up-write-comfail') + tuple(f'c10.err.{k}' for k in ERROR_KINDS)
 
     def gen_case(self, rng, tier):
         specs = []
@@ -77,6 +77,14 @@ class C10(Check):
             if rng.random() < 0.25:
                 s['optional'] = True
             specs.append(s)
+        if rng.random() < 0.3:
+            # two modules of one class, each with a configuration of its own (nothing configured for one instance may
+            # leak into the other)
+            import copy
+            twin = copy.deepcopy(specs[0])
+            twin['name'] = specs[0]['name'] + 'b'
+            twin['twin_of'] = specs[0]['name']
+            specs.append(twin)
         cfgs = {}
         for s in specs:
             entries = []
@@ -111,6 +119,19 @@ class C10(Check):
                     if p['di']['type'] in ('double', 'scaled') and rng.random() < 0.2:
                         e['props']['unit'] = rng.choice(['K', 'mm', 'xyz'])
                         e['style'] = 'param'
+                    if p['di']['type'] == 'array' and p['di']['members']['type'] == 'double' and rng.random() < 0.5:
+                        # properties of the member datatype of an array are set through the array
+                        mdi = p['di']['members']
+                        if rng.random() < 0.6:
+                            e['props']['unit'] = rng.choice(['K', 'mm', 'xyz'])
+                        lo, hi = mdi.get('min', -1000.0), mdi.get('max', mdi.get('min', -1000.0) + 2000.0)
+                        if hi - lo > 1e-6 and hi < 1e300 and lo > -1e300 and rng.random() < 0.6:
+                            f = rng.choice([0.1, 0.25, 0.4])
+                            e['props']['min'] = lo + (hi - lo) * f
+                            e['props']['max'] = hi - (hi - lo) * f
+                            e['value'] = None
+                        if e['props']:
+                            e['style'] = 'param'
                     if rng.random() < 0.15:
                         e['props']['visibility'] = rng.choice([1, 2, 3])
                         e['style'] = 'param'
@@ -238,6 +259,19 @@ class C10(Check):
         classes = []
         REG.clear()
         for spec in shape['specs']:
+            if spec.get('twin_of'):
+                # a second module of the class of an earlier module (same class object)
+                cls = REG[spec['twin_of']]
+                for (m_, p_), v_ in list(drv.di.items()):
+                    if m_ == spec['twin_of']:
+                        drv.di[spec['name'], p_] = v_
+                for (m_, p_), v_ in list(drv.reg.items()):
+                    if m_ == spec['twin_of']:
+                        drv.reg[spec['name'], p_] = v_
+                drv.mods[spec['name']] = cls
+                REG[spec['name']] = cls
+                sim.count('c10.two-modules-of-one-class')
+                continue
             cls = genmod.make_class(spec, drv)
             extra = {}
             if spec.get('mandatory_prop'):
@@ -336,6 +370,8 @@ class C10(Check):
                         p = next(p for p in spec['params'] if p['name'] == e['p'])
                         if p['readonly'] and not e['props'].get('readonly') is False or e['props'].get('readonly'):
                             continue
+                        if p['di']['type'] != 'double':
+                            continue      # (member limits of arrays are judged on the description only)
                         exp = genmod_expname(p['name'])
                         lo, hi = e['props']['min'], e['props']['max']
                         span = hi - lo
@@ -457,6 +493,8 @@ class C10(Check):
                                                  f'{spec["name"]}.{e["p"]}: configured {e["value"]!r}, cache holds {cur["value"]!r}'))
                 if adesc is not None:
                     di = adesc['datainfo']
+                    if p['di']['type'] == 'array' and isinstance(di.get('members'), dict):
+                        di = di['members']      # min / max / unit of an array are those of its members
                     for k in ('min', 'max'):
                         if k in e['props']:
                             bump('c10.limits-overridden')
